@@ -30,8 +30,99 @@ pub fn is_ascii_alphanumeric(c: char) -> (r: bool) ensures r == (('0' <= c <= '9
 #[verifier::external_body]
 pub fn str_all(s: &str, f: impl Fn(char) -> bool) -> (r: bool)
     requires forall|c: char| f.requires((c,)),
-    ensures r == (forall|i: int| 0 <= i < s@.len() ==> f.ensures((#[trigger] s@[i],), true)),
-        (forall|c: char| (f.ensures((c,), true) || f.ensures((c,), false)) && !(f.ensures((c,), true) && f.ensures((c,), false))) ==> true,
+    ensures
+        // true: every call returned true; false: some call returned false (what a call returns satisfies the predicate's postcondition)
+        r ==> (forall|i: int| 0 <= i < s@.len() ==> f.ensures((#[trigger] s@[i],), true)),
+        !r ==> (exists|i: int| 0 <= i < s@.len() && f.ensures((#[trigger] s@[i],), false)),
 { unimplemented!() }
 #[verifier::external_body]
 pub fn str_is_empty(s: &str) -> (r: bool) ensures r == (s@.len() == 0) { unimplemented!() }
+
+// ---- to_cmdline_lossy: the text the function must produce, written as recursive spec functions over the command description
+// the word display_escape must return for s (the postcondition of display_escape pins the code to it; that it is a shell word for s
+// is lemma_quote_of_is_shell_word below)
+pub open spec fn quote_of(s: Seq<char>) -> Seq<char> { if s.len() > 0 && all_nice(s) { s } else { squote(s) } }
+pub proof fn lemma_quote_of_is_shell_word(s: Seq<char>) ensures shell_word_for(quote_of(s), s) {}
+// OsString: its bytes; to_string_lossy is the (uninterpreted) lossy decoding -- the property speaks about valid Unicode only, where it
+// is the identity
+pub struct OsString { pub b: Seq<u8> }
+impl OsString {
+    pub uninterp spec fn lossy(&self) -> Seq<char>;
+    #[verifier::external_body]
+    pub fn to_string_lossy(&self) -> (r: Cow<'_>) ensures cow_view(r) == self.lossy() { unimplemented!() }
+}
+// R6: `&cow` used where a &str is expected (Deref of Cow<str>)
+#[verifier::external_body]
+pub fn cow_str<'a>(c: &'a Cow<'a>) -> (r: &'a str) ensures r@ == cow_view(*c) { unimplemented!() }
+// the configuration, reduced to the one field to_cmdline_lossy reads
+pub struct PopenConfig { pub env: Option<Vec<(OsString, OsString)>> }
+pub type EnvList = Seq<(OsString, OsString)>;
+// a HashMap collected from a list of pairs: the last entry of a name wins; membership is membership in the list
+pub open spec fn lookup(e: EnvList, k: OsString) -> Option<OsString> decreases e.len() {
+    if e.len() == 0 { None } else if e.last().0 == k { Some(e.last().1) } else { lookup(e.drop_last(), k) }
+}
+pub open spec fn has_key(e: EnvList, k: OsString) -> bool { exists|i: int| 0 <= i < e.len() && (#[trigger] e[i]).0 == k }
+#[verifier::external_body]
+#[verifier::reject_recursive_types(K)]
+#[verifier::reject_recursive_types(V)]
+pub struct HashMap<K, V> { k: core::marker::PhantomData<(K, V)> }
+impl<'a> HashMap<&'a OsString, &'a OsString> {
+    pub uninterp spec fn src(&self) -> EnvList;
+    #[verifier::external_body]
+    pub fn contains_key(&self, k: &OsString) -> (r: bool) ensures r == has_key(self.src(), *k) { unimplemented!() }
+}
+// R6: `v.iter().map(|(x, y)| (x, y)).collect()` into a HashMap<&OsString, &OsString>
+#[verifier::external_body]
+pub fn ref_map<'a>(v: &'a Vec<(OsString, OsString)>) -> (r: HashMap<&'a OsString, &'a OsString>) ensures r.src() == v@ { unimplemented!() }
+// R6: `m.get(&k) == Some(&v)`
+#[verifier::external_body]
+pub fn map_has<'a>(m: &HashMap<&'a OsString, &'a OsString>, k: &OsString, v: &OsString) -> (r: bool) ensures r == (lookup(m.src(), *k) == Some(*v)) { unimplemented!() }
+// the environment of the calling process (R6: `env::vars_os().collect()`)
+pub uninterp spec fn process_env() -> EnvList;
+#[verifier::external_body]
+pub fn env_vars_os_vec() -> (r: Vec<(OsString, OsString)>) ensures r@ == process_env() { unimplemented!() }
+// R6: `for (k, v) in &vec` / `for (k, _) in vec` are desugared to loop { match it.next() .. } (Verus for-loops do not support `continue`)
+pub struct PairsIter<'a> { pub pos: Ghost<nat>, pub all: Ghost<EnvList>, pub p: core::marker::PhantomData<&'a ()> }
+impl<'a> PairsIter<'a> {
+    #[verifier::external_body]
+    pub fn next(&mut self) -> (r: Option<(&'a OsString, &'a OsString)>)
+        ensures final(self).all == old(self).all,
+            old(self).pos@ >= old(self).all@.len() ==> r.is_none() && final(self).pos == old(self).pos,
+            old(self).pos@ < old(self).all@.len() ==> r.is_some() && *r.unwrap().0 == old(self).all@[old(self).pos@ as int].0
+                && *r.unwrap().1 == old(self).all@[old(self).pos@ as int].1 && final(self).pos@ == old(self).pos@ + 1,
+    { unimplemented!() }
+}
+pub struct IntoPairsIter { pub pos: Ghost<nat>, pub all: Ghost<EnvList> }
+impl IntoPairsIter {
+    #[verifier::external_body]
+    pub fn next(&mut self) -> (r: Option<(OsString, OsString)>)
+        ensures final(self).all == old(self).all,
+            old(self).pos@ >= old(self).all@.len() ==> r.is_none() && final(self).pos == old(self).pos,
+            old(self).pos@ < old(self).all@.len() ==> r.is_some() && r.unwrap() == old(self).all@[old(self).pos@ as int] && final(self).pos@ == old(self).pos@ + 1,
+    { unimplemented!() }
+}
+#[verifier::external_body]
+pub fn pairs_iter<'a>(v: &'a Vec<(OsString, OsString)>) -> (r: PairsIter<'a>) ensures r.pos@ == 0, r.all@ == v@ { unimplemented!() }
+#[verifier::external_body]
+pub fn into_pairs_iter(v: Vec<(OsString, OsString)>) -> (r: IntoPairsIter) ensures r.pos@ == 0, r.all@ == v@ { unimplemented!() }
+
+// the arguments: each preceded by one blank, each quoted
+pub open spec fn args_text_n(a: Seq<OsString>, n: int) -> Seq<char> decreases n {
+    if n <= 0 { seq![] } else { args_text_n(a, n - 1) + seq![' '] + quote_of(a[n - 1].lossy()) }
+}
+pub open spec fn args_text(a: Seq<OsString>) -> Seq<char> { args_text_n(a, a.len() as int) }
+// the environment prefix: NAME=VALUE for every listed variable that differs from the calling process's, then NAME= for every variable
+// of the calling process that is not listed; each followed by one blank, names and values quoted
+pub open spec fn env_set_n(e: EnvList, cur: EnvList, n: int) -> Seq<char> decreases n {
+    if n <= 0 { seq![] } else {
+        env_set_n(e, cur, n - 1) + (if lookup(cur, e[n - 1].0) == Some(e[n - 1].1) { seq![] } else { quote_of(e[n - 1].0.lossy()) + seq!['='] + quote_of(e[n - 1].1.lossy()) + seq![' '] })
+    }
+}
+pub open spec fn env_unset_n(e: EnvList, cur: EnvList, n: int) -> Seq<char> decreases n {
+    if n <= 0 { seq![] } else {
+        env_unset_n(e, cur, n - 1) + (if has_key(e, cur[n - 1].0) { seq![] } else { quote_of(cur[n - 1].0.lossy()) + seq!['=', ' '] })
+    }
+}
+pub open spec fn env_text(e: Option<Vec<(OsString, OsString)>>) -> Seq<char> {
+    match e { None => seq![], Some(v) => env_set_n(v@, process_env(), v@.len() as int) + env_unset_n(v@, process_env(), process_env().len() as int) }
+}
